@@ -25,6 +25,34 @@ type encoder struct {
 	Encode encodeFunc
 }
 
+var (
+	marshalerType       = reflect.TypeOf((*Marshaler)(nil)).Elem()
+	binaryMarshalerType = reflect.TypeOf((*encoding.BinaryMarshaler)(nil)).Elem()
+)
+
+// zeroWire reports whether values of type t take no bytes on the wire and have
+// a single value: zero-size types, unless a custom marshaler encodes them.
+func zeroWire(t reflect.Type) bool {
+	if t.Size() != 0 {
+		return false
+	}
+	if t.Implements(marshalerType) || t.Implements(binaryMarshalerType) {
+		return false
+	}
+	switch t.Kind() {
+	case reflect.Array:
+		return t.Len() == 0 || zeroWire(t.Elem())
+	case reflect.Struct:
+		for i := 0; i < t.NumField(); i++ {
+			if zeroWire(t.Field(i).Type) == false {
+				return false
+			}
+		}
+		return true
+	}
+	return false
+}
+
 func regTypeName(t reflect.Type) string {
 	return fmt.Sprintf("#%s/%s", t.PkgPath(), t.Name())
 }
@@ -422,7 +450,7 @@ func registerType(tov reflect.Type) error {
 			n := int(binary.BigEndian.Uint32(packet[:4]))
 			packet = packet[4:]
 
-			if n > len(packet) && itemType.Size() > 0 {
+			if n > len(packet) && zeroWire(itemType) == false {
 				return nil, nil, fmt.Errorf("incorrect data length %d", n)
 			}
 			if err := allocGuard(itemType, n, packet); err != nil {
@@ -436,7 +464,7 @@ func registerType(tov reflect.Type) error {
 				value.Set(x)
 			}
 
-			if n == 0 || itemType.Size() == 0 {
+			if n == 0 || zeroWire(itemType) {
 				// zero-size items ([0]T, empty struct) take no bytes on the wire
 				// and have a single value: nothing to decode
 				return value, packet, nil
@@ -496,7 +524,7 @@ func registerType(tov reflect.Type) error {
 
 		fdec := func(value *reflect.Value, packet []byte, state *stateDecode) (*reflect.Value, []byte, error) {
 			if len(packet) == 0 {
-				if tov.Size() == 0 {
+				if zeroWire(tov) {
 					// no items, or zero-size items: nothing on the wire
 					return value, packet, nil
 				}
@@ -507,7 +535,7 @@ func registerType(tov reflect.Type) error {
 				value = &x
 			}
 
-			if itemType.Size() == 0 {
+			if zeroWire(itemType) {
 				// zero-size items take no bytes on the wire and have a single value
 				return value, packet, nil
 			}
@@ -615,7 +643,7 @@ func registerType(tov reflect.Type) error {
 			packet = packet[4:]
 
 			// validate the declared count before anything is allocated for it
-			if zeroSize := typeKey.Size() == 0 && typeValue.Size() == 0; zeroSize {
+			if zeroSize := zeroWire(typeKey) && zeroWire(typeValue); zeroSize {
 				if n > 1 {
 					return nil, nil, fmt.Errorf("incorrect data length")
 				}
@@ -634,7 +662,7 @@ func registerType(tov reflect.Type) error {
 				return value, packet, nil
 			}
 
-			if zeroSize := typeKey.Size() == 0 && typeValue.Size() == 0; zeroSize {
+			if zeroSize := zeroWire(typeKey) && zeroWire(typeValue); zeroSize {
 				// a zero-size key type has a single value: at most one entry,
 				// and it takes no bytes on the wire
 				if n > 1 {
